@@ -174,14 +174,14 @@ Proof. intros w. unfold inst_send_offer. destruct (get_inst i w); [apply E_queue
 Lemma E_inst_start i : E (fun w => fst (inst_start i w)).
 Proof.
   intros w. unfold inst_start. destruct (get_inst i w) as [ins|]; [|apply ext_refl].
-  destruct (in_task ins); [cbn [fst]; apply E_neutral, n_emit|].
+  destruct (in_task ins); [cbn [fst]; apply E_neutral, n_emit; reflexivity|].
   destruct (new_task (TOffer i) w) as [t w1] eqn:E0. cbn [fst]. pair_E (E_new_task (TOffer i) w) E0.
   eapply ext_trans; [exact K|apply E_put_inst].
 Qed.
 Lemma E_inst_stop i : E (fun w => fst (inst_stop i w)).
 Proof.
   intros w. unfold inst_stop. destruct (get_inst i w) as [ins|]; [|apply ext_refl].
-  destruct (in_task ins) as [t|]; [|cbn [fst]; apply E_neutral, n_emit]. cbn [fst].
+  destruct (in_task ins) as [t|]; [|cbn [fst]; apply E_neutral, n_emit; reflexivity]. cbn [fst].
   eapply ext_trans; [|apply E_store_stop_all].
   set (w1 := put_inst i _ (cancel_task t w)). assert (H1 : ext w w1) by (eapply ext_trans; [apply E_cancel_task|apply E_put_inst]).
   destruct (t_cyclic (cfg w1) =? 0); [eapply ext_trans; [exact H1|apply E_inst_send_offer]|exact H1].
@@ -212,7 +212,7 @@ Proof.
 Qed.
 Lemma E_stop_announce_service i b : E (stop_announce_service i b).
 Proof.
-  intros w. unfold stop_announce_service. destruct (remove_first N.eqb i (announcing w)); [|apply E_neutral, n_emit].
+  intros w. unfold stop_announce_service. destruct (remove_first N.eqb i (announcing w)); [|apply E_neutral, n_emit; reflexivity].
   destruct (b && ann_started (set_announcing l w)); [eapply ext_trans; [apply E_neutral, n_set_announcing|apply E_inst_stop]|apply E_neutral, n_set_announcing].
 Qed.
 Lemma E_inst_handle_subscribe e a i : E (fun w => fst (inst_handle_subscribe e a i w)).
